@@ -87,6 +87,9 @@ class ShmProp(Prop):
     def gen_case(self, rng, cid):
         raise NotImplementedError
 
+    def conf(self, plan):
+        return hc.make_conf({'cache': 'none'})
+
     def common(self, rng, c, ntasks, est_yields):
         c['pol'] = pick_policy(rng)
         c['seed'] = rng.getrandbits(40)
@@ -108,7 +111,7 @@ class ShmProp(Prop):
         cases = self.cases_of(plan)
         lines = [render_case(c) for c in cases]
         scn = simlib.Scn(plan.get('sim_seed', 1))
-        scn.conf = hc.make_conf({'cache': 'none'})
+        scn.conf = self.conf(plan)
         scn.line('mode shm:run %s cases.txt' % self.structure)
         scn.extra_files['cases.txt'] = ('\n'.join(lines) + '\n').encode()
         hist = simlib.run_squid(scn, workdir)
@@ -448,3 +451,69 @@ class C56(ShmProp):
             tasks.append(ops)
         c = {'id': cid, 'params': {'qcap': qcap}, 'tasks': tasks}
         return self.common(rng, c, npr + 1, 120)
+
+
+# ======================================================================================================================= C19
+@register
+class C19(ShmProp):
+    """SMP workers share cache entries (component level, DESIGN.md §4): N real MemStore objects on one set of segments."""
+    id = 'C19'
+    structure = 'memstore'
+    cases_per_plan = 600
+    quick_runs = 24
+    rule = ('case = 2-4 worker tasks, each with its own real MemStore object attached to the one set of shared segments squid created for '
+            '`memory_cache_shared on` (map, slice stack, extras, 4-12 pages of 32 KB), each owning private StoreEntry objects; operations: start a '
+            'response for one of 1-3 keys (body 3-90 KB, so up to three pages), grow it chunk by chunk through MemStore::write() until '
+            'completeWriting(), abort it, MemStore::get() + byte comparison, updateAnchored() on a still-appending hit, evictIfFound(); three '
+            'scheduling policies, optional kid crash, 3 schedule seeds per case. non-trivial = at least one pre-emption; distinct = distinct case text')
+    expected_probes = ['c19.responses_cached', 'c19.responses_not_cached', 'c19.get_hit', 'c19.get_miss', 'c19.complete_hits_verified',
+                       'c19.partial_hits_verified', 'c19.update_anchored_ok', 'c19.evictions', 'c19.certain_evictions', 'c19.quiescent_checks',
+                       'fault.shm.kid_crash']
+    assumptions = ASSUME + ['component level: workers are tasks inside one process; Transients/CollapsedForwarding notifications, rock/diskers and real '
+                            'process boundaries are not covered; the harness plays Store::Controller (hands private StoreEntry objects to MemStore)',
+                            'updateHeaders() is not exercised (see the C55 update findings)']
+
+    def plan(self, rng, tier, index):
+        p = ShmProp.plan(self, rng, tier, index)
+        p['pages'] = rng.choice([4, 6, 8, 12])
+        return p
+
+    def cases_of(self, plan):
+        if 'cases' in plan:
+            return plan['cases']
+        g = plan['gen']
+        rng = random.Random(g['seed'])
+        return [self.gen_case(rng, 'p%dc%d' % (g['index'], i), plan.get('pages', 6)) for i in range(g['n'])]
+
+    def _single(self, plan, case):
+        p = ShmProp._single(self, plan, case)
+        p['pages'] = plan.get('pages', 6)
+        return p
+
+    def conf(self, plan):
+        return hc.make_conf({'cache': 'shared', 'cache_mem_mb': 1, 'lines': ['cache_mem %d KB' % (32 * plan.get('pages', 6))]})
+
+    def gen_case(self, rng, cid, pages=6):
+        nt = weighted(rng, [(4, 2), (4, 3), (2, 4)])
+        nk = weighted(rng, [(4, 1), (4, 2), (2, 3)])
+        sizes = [rng.choice([3000, 9000, 20000, 31000, 33000, 40000, 64000, 70000, 90000]) for _ in range(rng.randint(1, 3))]
+        chunk = rng.choice([4000, 16000, 30000, 50000])
+        tasks = []
+        for t in range(nt):
+            ops = []
+            want = rng.randint(3, 30)
+            role = weighted(rng, [(4, 'w'), (4, 'r'), (1, 'e'), (3, 'mix')])
+            while len(ops) < want:
+                r = role if role != 'mix' else rng.choice('wwrre')
+                j = rng.randrange(nk)
+                if r == 'w':
+                    ops.append('N%d:%d' % (j, rng.randrange(len(sizes))))
+                    for _ in range(rng.randint(1, 6)):
+                        ops.append(weighted(rng, [(12, 'w'), (1, 'x'), (1, 'G%d' % j)]))
+                elif r == 'r':
+                    ops.append(weighted(rng, [(5, 'G%d' % j), (3, 'g'), (3, 'd')]))
+                else:
+                    ops.append('E%d' % j)
+            tasks.append(ops[:30])
+        c = {'id': cid, 'params': {'keys': nk, 'sizes': ','.join(str(x) for x in sizes), 'chunk': chunk}, 'tasks': tasks}
+        return self.common(rng, c, nt, 400)
